@@ -180,6 +180,15 @@ class _Canon(ast.NodeTransformer):
                 comp = ast.ListComp(elt=(v if inner.func.id == 'filter' else app), generators=[gen])
                 return self.visit(ast.fix_missing_locations(comp))
         self.generic_visit(node)
+        # <..>.options.get('section.key', <empty literal>) == <..>.options.get('section.key') (the canonical option read of
+        # core._optdefault_norm, here for keys that only become constants after substitution)
+        if isinstance(node.func, ast.Attribute) and node.func.attr == 'get' and len(node.args) == 2 and not node.keywords \
+                and isinstance(node.args[0], ast.Constant) and isinstance(node.args[0].value, str) and ('.' in node.args[0].value or node.args[0].value == 'inlineElements') \
+                and ((isinstance(node.func.value, ast.Attribute) and node.func.value.attr == 'options') or (isinstance(node.func.value, ast.Name) and node.func.value.id == 'options')):
+            d = node.args[1]
+            if (isinstance(d, ast.Constant) and d.value in ('', 0) and not isinstance(d.value, bool)) or (isinstance(d, (ast.List, ast.Tuple)) and not d.elts) \
+                    or (isinstance(d, ast.Dict) and not d.keys):
+                node.args = node.args[:1]
         # super(C, self) == super() inside a method of C
         if isinstance(node.func, ast.Name) and node.func.id == 'super' and len(node.args) == 2:
             return ast.Call(func=node.func, args=[], keywords=[])
@@ -1061,12 +1070,21 @@ def _is_new_field_store(t):
         return False
     m = _re.fullmatch(r'[A-Za-z_][\w.]*\.([A-Za-z_]\w*)', t[6:].split(' = ', 1)[0])
     ids = names.reviewed_identifiers()
-    return bool(m) and bool(ids) and m.group(1) not in ids
+    # not the variables of the enclosing function (`_closure_.x`): how shared state is represented is judged as such
+    return bool(m) and bool(ids) and m.group(1) not in ids and not t[6:].startswith('_closure_.')
 
 
 def norm_outcome(o, analysed=False):
     """spelling differences of an outcome that change nothing (for the analysed tree also: stores into new fields)"""
     o = _unwrap_unit_linear(o)
+    if 'store old' in o:
+        # the object a store goes into is the same object before and after earlier steps: old<t>(config.cache)[k] is config.cache[k]
+        import re as _re
+        bits = o.split(' || ')
+        steps = _split_top(bits[0], ' ; ')
+        steps = [(('store ' + _re.sub(r'\bold\d+\(([^()]*)\)', r'\1', t.strip()[6:].split(' = ', 1)[0]) + ' = ' + t.strip()[6:].split(' = ', 1)[1])
+                  if t.strip().startswith('store old') and ' = ' in t else t) for t in steps]
+        o = ' || '.join([' ; '.join(x.strip() for x in steps)] + bits[1:])
     if 'store ' in o:
         o = _drop_steps(o, (lambda t: _is_noop_store(t) or _is_new_field_store(t)) if analysed else _is_noop_store)
     return o
